@@ -527,6 +527,19 @@ def _all_orientations():
 LETTER_VEC = {'L': (1, 0, 0), 'R': (-1, 0, 0), 'P': (0, 1, 0), 'A': (0, -1, 0), 'H': (0, 0, 1), 'F': (0, 0, -1)}
 
 
+def _spell_letters(r, o):
+    """every accepted spelling of a patient orientation: 'FPL', tuple / list of letters, enum members, mixed"""
+    from highdicom.enum import PatientOrientationValuesBiped as B
+    k = r.randrange(4)
+    if k == 0:
+        return o
+    if k == 1:
+        return tuple(o)
+    if k == 2:
+        return tuple(B(c) for c in o)
+    return [B(o[0]), o[1], B(o[2])] if len(o) == 3 else tuple(o)
+
+
 def _letters_cases(ctx, reqs, pend):
     """all 48 orientations, exhaustively: letters -> matrix -> letters, matrix -> letters -> matrix, conventions."""
     import highdicom as hd
@@ -540,7 +553,7 @@ def _letters_cases(ctx, reqs, pend):
     for o in oris:
         want = np.column_stack([np.array(LETTER_VEC[c], dtype=float) for c in o])
         for spc in (1.0, [0.5, 2.0, 3.0], [_spacing(r), _spacing(r), _spacing(r)]):
-            st, m = _call(sp.rotation_for_patient_orientation, o if r.random() < 0.5 else tuple(o), spc)
+            st, m = _call(sp.rotation_for_patient_orientation, _spell_letters(r, o), spc)
             case = {'fn': 'rotation_for_patient_orientation', 'letters': o, 'spacing': spc}
             ctx.case(sample=case if o == 'FPL' else None, fn='letters', nontrivial_key=('rot', o, isinstance(spc, list)), outcome=st)
             s3 = [spc] * 3 if not isinstance(spc, list) else spc
@@ -564,11 +577,11 @@ def _letters_cases(ctx, reqs, pend):
             if ''.join(x.value for x in sp.get_closest_patient_orientation(A)) != o:
                 ctx.fail(dict(case, fn='get_closest_patient_orientation(4x4)'), 'differs', site='letters')
             st3, g = _call(hd.VolumeGeometry.from_components, (2, 3, 4), spacing=s3, coordinate_system='PATIENT',
-                           position=[1.0, 2.0, 3.0], patient_orientation=o)
+                           position=[1.0, 2.0, 3.0], patient_orientation=_spell_letters(r, o))
             if st3 != 'ok' or ''.join(x.value for x in g.get_closest_patient_orientation()) != o:
                 ctx.fail(dict(case, fn='VolumeGeometry.from_components(patient_orientation)'), f'{st3}', site='letters')
         # reference-convention change of an affine: row i of the result is the coordinate along letter i
-        st, out = _call(sp._transform_affine_to_convention, A0, (3, 4, 5), 'LPH', o)
+        st, out = _call(sp._transform_affine_to_convention, A0, (3, 4, 5), _spell_letters(r, 'LPH'), _spell_letters(r, o))
         case = {'fn': '_transform_affine_to_convention', 'to': o}
         ctx.case(fn='to_convention', nontrivial_key=('conv', o), outcome=st if st == 'ok' else out)
         wantA = np.eye(4)
@@ -579,14 +592,14 @@ def _letters_cases(ctx, reqs, pend):
             ctx.fail(case, {'got': out.tolist(), 'want': wantA.tolist()}, site='to_convention')
         reqs.append(('toConvention', {'m': [RL(x) for x in A0[:3, :3]], 't': RL(A0[:3, 3]), 'from': 'LPH', 'to': o}))
         pend.append((case, (st, {'m': out[:3, :3], 't': out[:3, 3]} if st == 'ok' else out), 0))
-        st, out2 = _call(hd.VolumeGeometry(A0, (3, 4, 5), 'PATIENT').get_affine, o)
+        st, out2 = _call(hd.VolumeGeometry(A0, (3, 4, 5), 'PATIENT').get_affine, _spell_letters(r, o))
         if st != 'ok' or not np.array_equal(out2, wantA):
             ctx.fail(dict(case, fn='VolumeGeometry.get_affine'), f'{st}', site='to_convention')
     # a few source conventions other than LPH (model comparison + oracle)
     for k in range(ctx.n(40, 400)):
         rr = ctx.rng('conv', k)
         f, t = rr.choice(oris), rr.choice(oris)
-        st, out = _call(sp._transform_affine_to_convention, A0, (3, 4, 5), f, t)
+        st, out = _call(sp._transform_affine_to_convention, A0, (3, 4, 5), _spell_letters(rr, f), _spell_letters(rr, t))
         F = np.column_stack([np.array(LETTER_VEC[c], dtype=float) for c in f])
         T = np.column_stack([np.array(LETTER_VEC[c], dtype=float) for c in t])
         wantA = np.eye(4)
@@ -658,7 +671,7 @@ def _components_cases(ctx, reqs, pend):
             margs['direction'] = RL(D.flatten())
         else:
             o = r.choice(oris)
-            kw['patient_orientation'] = o
+            kw['patient_orientation'] = _spell_letters(r, o)
             margs['orientation'] = o
             D = np.column_stack([np.array(LETTER_VEC[c], dtype=float) for c in o])
         if use_center:
@@ -875,7 +888,13 @@ def _dataset_cases(ctx, reqs, pend):
             sl = _spacing(r)
             if kind == 'single':
                 dss = sources.ct_series(nfr, 3, 4, orientation=pl['ori'], origin=pl['pos'], pixel_spacing=pl['ps'], slice_spacing=sl)
-                frames = [(ds, None, [float(x) for x in ds.ImagePositionPatient], None) for ds in dss]
+                sbs1 = None
+                if r.random() < 0.5:
+                    # a single-frame image that declares its slice spacing: the inverse transformers must use it
+                    sbs1 = _spacing(r)
+                    for ds in dss:
+                        ds.SpacingBetweenSlices = sbs1
+                frames = [(ds, None if r.random() < 0.5 else 1, [float(x) for x in ds.ImagePositionPatient], sbs1) for ds in dss]
             else:
                 ds = sources.enhanced_multiframe(nfr, 3, 4, orientation=pl['ori'], origin=pl['pos'], pixel_spacing=pl['ps'], slice_spacing=sl)
                 if kind == 'perframe_all':
@@ -905,6 +924,33 @@ def _dataset_cases(ctx, reqs, pend):
                         ctx.fail(dict(case, cls=cls.__name__, frame=f), f'refused: {t}', site='for_image')
                     elif not np.array_equal(t.affine, explicit(cls, pos, pl['ori'], pl['ps'], sbs).affine):
                         ctx.fail(dict(case, cls=cls.__name__, frame=f), 'differs from the transformer built from explicit attributes', site='for_image')
+            # the option flags of the inverse transformers are passed through
+            ds_f, f_f, pos_f, sbs_f = frames[-1]
+            pt = np.array([pos_f]) + 0.25 * row * pl['ps'][1]
+            for flags in ({'round_output': False, 'drop_slice_index': True}, {'round_output': True}, {'round_output': False}):
+                st, t = _call(sp.ReferenceToPixelTransformer.for_image, ds_f, frame_number=f_f, **flags)
+                want_t = sp.ReferenceToPixelTransformer(pos_f, pl['ori'], pl['ps'], spacing_between_slices=1.0 if sbs_f is None else sbs_f, **flags)
+                if st != 'ok' or not np.array_equal(t(pt), want_t(pt)):
+                    ctx.fail(dict(case, cls='ReferenceToPixelTransformer', flags=flags), 'for_image ignores the option flags', site='for_image')
+            st, t = _call(sp.ReferenceToImageTransformer.for_image, ds_f, frame_number=f_f, drop_slice_coord=True)
+            if st != 'ok' or t(pt).shape != (1, 2):
+                ctx.fail(dict(case, cls='ReferenceToImageTransformer', flags='drop_slice_coord'), 'for_image ignores drop_slice_coord', site='for_image')
+            # two-image transformers built from datasets: = explicit attributes; other / missing frame of reference refused
+            ds_a, f_a, pos_a, _ = frames[0]
+            for cls2 in (sp.PixelToPixelTransformer, sp.ImageToImageTransformer):
+                kw2 = {'round_output': False} if cls2 is sp.PixelToPixelTransformer else {}
+                st, t = _call(cls2.for_images, ds_a, ds_f, frame_number_from=f_a, frame_number_to=f_f, **kw2)
+                st_w, want_t = _call(cls2, pos_a, pl['ori'], pl['ps'], pos_f, pl['ori'], pl['ps'], **kw2)
+                ctx.case(fn='for_images', kind=kind, outcome=st if st == 'ok' else t)
+                if (st == 'ok') != (st_w == 'ok') or (st == 'ok' and not np.array_equal(t.affine, want_t.affine)):
+                    ctx.fail(dict(case, cls=cls2.__name__), f'for_images ({st}) differs from explicit attributes ({st_w})', site='for_image')
+                other = copy.deepcopy(ds_f)
+                other.FrameOfReferenceUID = sources._uid()
+                if _call(cls2.for_images, ds_a, other, frame_number_from=f_a, frame_number_to=f_f)[0] == 'ok':
+                    ctx.fail(dict(case, cls=cls2.__name__), 'images in different frames of reference accepted', site='for_image')
+                del other.FrameOfReferenceUID
+                if _call(cls2.for_images, ds_a, other, frame_number_from=f_a, frame_number_to=f_f)[0] == 'ok':
+                    ctx.fail(dict(case, cls=cls2.__name__), 'image without frame of reference accepted', site='for_image')
             # multi-frame image needs a frame number, single frame refuses others than 1
             ds0 = frames[0][0]
             st, t = _call(sp.PixelToReferenceTransformer.for_image, ds0, frame_number=None if kind != 'single' else 2)
